@@ -15,7 +15,7 @@ CHECKS = {
         "specification's outcomes in priority order with all stacks restored, crash-free (mutual rule induction over the ordered-outcomes semantics Spec/Sem.v: atoms, "
         "in/not in, greedy and fewest loops with zero-width rejection, alternation, captures, back-references, inline subroutines, calls incl. guarded recursion, stored "
         "patterns with predicates); C01_attempt - an attempt of a whole command yields the FIRST outcome or FAILED; C01_find_all - `find all` = leftmost non-overlapping "
-        "non-empty scan of the specification with Value = text[Start:End], bindings and consecutive numbers; C01_oracle_sound; C01_generated_patterns_well_formed - the theorems' hypothesis loop_ok holds for every pattern the generator resolves in every program (loop ids are fresh numbers of its supply), given only that `in` lists are non-empty; C01_unrolling_preserves_meaning - the generator's unrolled form (m copies of "
+        "non-empty scan of the specification with Value = text[Start:End], bindings and consecutive numbers; C01_oracle_sound; C01_generated_patterns_well_formed - the theorems' hypothesis loop_ok holds for every pattern the generator resolves in every program (loop ids are fresh numbers of its supply), given only that `in` lists are non-empty, which C01_well_formed_from_any_source proves of every tree the parser returns (for every source text); C01_unrolling_preserves_meaning - the generator's unrolled form (m copies of "
         "the body, then a loop of 0..n-m iterations, nothing when m = n) means the bounded repetition in the specification, for every body whose outcomes always consume something. Windows: C04. Tie to /repo: three-layer "
         "correspondence (bytecode equal up to loop-id renaming, model VM on the implementation's bytecode, end-to-end) plus implementation vs extracted specification, on "
         "generated programs and exhaustive small programs x texts.",
